@@ -44,6 +44,13 @@ def strategy_(g):
         features=("parallel", "reversed", "permute", "ids", "multifixed", "quat-signs", "pure-translation-steps"),
     )
     case["tol"] = 10.0 ** g.rnd.uniform(-10, -3)
+    # staged optimisation on ONE Graph object: some free vertices are held for a first (single-iteration) run and released afterwards
+    case["staged"] = []
+    if g.choice([False, False, False, True]):
+        ff = case["fix_first"]
+        free = [i for i, v in enumerate(case["verts"]) if not (v["fixed"] or (ff and i == 0))]
+        if len(free) >= 2:
+            case["staged"] = sorted(g.rnd.sample(free, g.rnd.randint(1, max(1, len(free) // 2))))
     return case
 
 
@@ -66,6 +73,19 @@ def check(case, ctx):
     fixed = GC.expected_fixed(case, ff)
     tol = case["tol"]
     g = GG.build(case)
+    if case.get("staged"):
+        # first stage: hold some vertices (fixed=True), take one iteration, release them; the run examined below starts from there
+        ctx.event("staged:hold-then-release")
+        chi_pre = RG.chi2(g)
+        for i in case["staged"]:
+            g._vertices[i].fixed = True
+        GC.optimize_quiet(g, tol=tol, max_iter=1, fix_first_pose=ff, verbose=False)
+        for i in case["staged"]:
+            g._vertices[i].fixed = False
+        if not GC.all_finite(g) or not (RG.chi2(g) <= chi_pre):
+            # the partial step left the calibrated neighbourhood (nothing is claimed about what follows)
+            ctx.event("discarded:staged-step-increased-chi2")
+            return
     chi0_ref = RG.chi2(g)
     ret, _ = GC.optimize_quiet(g, tol=tol, max_iter=50, fix_first_pose=ff, verbose=False)
     if not GC.all_finite(g):
